@@ -7,7 +7,7 @@ static int bad=0; static void fail(const std::string& s){ if(bad<12) std::printf
 struct P: public SQuIDS{ P(unsigned nx):SQuIDS(nx,3,1,0,0.0){}
   SU_vector H0(double x,unsigned) const { SU_vector h(3); h[4]=0.3*x; h[8]=0.1*x*x; return h; }
   void fill(){ for(unsigned e=0;e<nx;e++){ state[e].rho[0].SetAllComponents(0); for(unsigned k=0;k<9;k++) state[e].rho[0][k]=0.1*(k+1)+0.05*e*e; } }
-  void sett(double tt){ t=tt; } };
+  void sett(double tt){ Set_t(tt); } };
 int main(int argc,char** argv){
   Witness w(argv[1]);
   for(int g=0;g<3;g++) for(unsigned nx: {2u,3u,5u,8u}){
@@ -16,7 +16,7 @@ int main(int argc,char** argv){
     auto x=p.Get_xrange(); double lo=x[0], hi=x[nx-1];
     for(double xo: {lo-1.0, lo-1e-9, hi+1e-9, hi+3.0}){ bool t1=false,t2=false; try{ p.GetExpectationValueD(op,0,xo); }catch(std::runtime_error&){ t1=true; } try{ p.GetIntermediateState(0,xo); }catch(std::runtime_error&){ t2=true; }
       if(!t1) fail("GetExpectationValueD answered x="+std::to_string(xo)+" outside ["+std::to_string(lo)+","+std::to_string(hi)+"]"); if(!t2) fail("GetIntermediateState answered x outside the node range"); }
-    for(unsigned k=0;k<nx;k++){ double a=p.GetExpectationValueD(op,0,x[k]), b=p.GetExpectationValue(op,0,k); if(std::abs(a-b)>1e-10*(1+std::abs(b))) fail("interpolating form disagrees with the node form at node "+std::to_string(k)); }
+    for(unsigned k=0;k<nx;k++){ double a=0, b=p.GetExpectationValue(op,0,k); try{ a=p.GetExpectationValueD(op,0,x[k]); }catch(std::runtime_error&){ fail("interpolating form rejects node "+std::to_string(k)+" of "+std::to_string(nx)); continue; } if(std::abs(a-b)>1e-10*(1+std::abs(b))) fail("interpolating form disagrees with the node form at node "+std::to_string(k)); }
     for(unsigned k=0;k+1<nx;k++){ double xm=0.3*x[k]+0.7*x[k+1]; SU_vector s=p.GetIntermediateState(0,xm); for(unsigned c=0;c<9;c++){ double e=0.3*(0.1*(c+1)+0.05*k*k)+0.7*(0.1*(c+1)+0.05*(k+1)*(k+1)); if(std::abs(s[c]-e)>1e-12) { fail("interpolated state is not the convex combination of the bracketing nodes"); break; } } }
   }
   std::printf("C05 -> %s\n",bad?"REPRODUCED":"holds"); return bad?1:0;
